@@ -5,8 +5,9 @@ import Csproto.Model.GenDec
   `cmd/protoc-gen-fastmarshal/templates/fieldsnippets.tmpl`, transcribed literally.
 
   `Model/Gen.lean` treats a map field (`Card.map`, `ty = .msg e`) through the arms of a repeated message field
-  of the synthetic entry type `e = entryMD kk vty` (`sizeMsgList` / `opsMsgList`: one `EncodeNested`-shaped call
-  per entry whose body is the entry's two `always` fields).  The generated code does not call `EncodeNested`
+  of the synthetic entry type `e = entryMD kk vty` (`sizeMsgList` / `opsMsgList` with `skipNil = true`: one
+  `EncodeNested`-shaped call per entry whose body is the entry's two `always` fields; an entry whose message value
+  is a nil pointer is passed over).  The generated code does not call `EncodeNested`
   for an entry: `SizeOfMapEntry` computes `keySize` / `valueSize` with the literal `1 +` for the entry's
   internal keys, and `MarshalMapEntry` calls `EncodeMapEntryHeader(n, itemSize)` and then the two scalar /
   nested writers.  The definitions below are that text; `Proofs/GenMapTemplate.lean` proves that they add the
@@ -83,15 +84,25 @@ def tEntryOps (S : Schema) (num : Nat) (kk : SK) (vty : Ty) (k v : V) : Res (Lis
     | .err => .err                         -- `return fmt.Errorf("unable to encode message data for map field …")`
     | .panic => .panic
 
+/-- the test `v == nil`, which the snippets make only in the arm for the value kind `message`
+    (`if v != nil { … }` around the three statements of `SizeOfMapEntry`; `if v == nil { continue }` as the first
+    statement of `MarshalMapEntry`); a scalar value cannot be nil -/
+def tNil (vty : Ty) (e : V) : Bool :=
+  match vty with
+  | .msg _ => valUnset e
+  | .sc _ => false
+
 /-- the whole `range` loop of `SizeOfMapEntry`, the entries in iteration order -/
 def tMapSize (S : Schema) (num : Nat) (kk : SK) (vty : Ty) : List V → Nat
   | [] => 0
-  | e :: es => tEntrySize S num kk vty (entryKey e) (entryVal e) + tMapSize S num kk vty es
+  | e :: es =>
+    (if tNil vty e then 0 else tEntrySize S num kk vty (entryKey e) (entryVal e)) + tMapSize S num kk vty es
 
 /-- the whole `range` loop of `MarshalMapEntry` -/
 def tMapOps (S : Schema) (num : Nat) (kk : SK) (vty : Ty) : List V → Res (List EncOp)
   | [] => .ok []
   | e :: es =>
+    if tNil vty e then tMapOps S num kk vty es else
     match tEntryOps S num kk vty (entryKey e) (entryVal e) with
     | .ok a =>
       match tMapOps S num kk vty es with
